@@ -395,7 +395,7 @@ class Columns(Widget, WidgetContainerMixin, WidgetContainerListContentsMixin):
             DeprecationWarning,
             stacklevel=2,
         )
-        focus_position = self.focus_position
+        focus_position = self.contents.focus  # None while the container is empty
         self.contents = [
             # need to grow contents list if widgets is longer
             (new, options)
@@ -404,7 +404,7 @@ class Columns(Widget, WidgetContainerMixin, WidgetContainerListContentsMixin):
                 chain(self.contents, repeat((None, (WHSettings.WEIGHT, 1, False)))),
             )
         ]
-        if focus_position < len(widgets):
+        if focus_position is not None and focus_position < len(widgets):
             self.focus_position = focus_position
 
     @property
@@ -442,12 +442,12 @@ class Columns(Widget, WidgetContainerMixin, WidgetContainerListContentsMixin):
             DeprecationWarning,
             stacklevel=2,
         )
-        focus_position = self.focus_position
+        focus_position = self.contents.focus  # None while the container is empty
         self.contents = [
             (w, ({Sizing.FIXED: WHSettings.GIVEN, Sizing.FLOW: WHSettings.PACK}.get(new_t, new_t), new_n, b))
             for ((new_t, new_n), (w, (t, n, b))) in zip(column_types, self.contents)
         ]
-        if focus_position < len(column_types):
+        if focus_position is not None and focus_position < len(column_types):
             self.focus_position = focus_position
 
     @property
